@@ -27,6 +27,7 @@ RULE += ("; round 6: several threads asking read-only queries, each of objects o
 RULE += ("; round 7: overlapping groups in swapped order; sliding-window getters with one window in different orders")
 RULE += ("; round 8: two or three objects built from the same string with different phosphosites, asked the same questions in turn; groupings with a moved border")
 RULE += ("; round 9: a fresh 20-residue chain of distinct residues is shuffled 12 times after histories with phosphosites: every position must move at least once")
+RULE += ("; round 11: objects that carried other phosphosites (as many), were asked the phospho-queries and were cleared before their preset sites were set")
 RULE += ("; round 10: user alphabet together with a predefined size followed by plain calls with that size; an object with nine phosphosites asked for the full distribution")
 EXHAUSTIVE = {"quick": False, "thorough": False}
 ASSUMPTIONS = [
@@ -37,7 +38,7 @@ ASSUMPTIONS = [
 ]
 REQUIRED = {"all": ["judged_calls", "references_computed", "pair:get_kappa->get_deltaMax(True)",
                     "pair:get_deltaMax->get_deltaMax(True)", "after_perturber_raise", "multi_object_histories",
-                    "preset_phosphosites_histories", "distinct_ops_ge_40", "state_snapshots", "adopted_shuffled_children", "thread_rounds", "several_objects_of_one_string", "default_shuffle_mobility_checks", "objects_with_nine_phosphosites", "adopted_children_with_all_charged_positions_frozen"]}
+                    "preset_phosphosites_histories", "distinct_ops_ge_40", "state_snapshots", "adopted_shuffled_children", "thread_rounds", "several_objects_of_one_string", "default_shuffle_mobility_checks", "objects_with_nine_phosphosites", "adopted_children_with_all_charged_positions_frozen", "objects_that_carried_other_sites_before"]}
 NHIST = {"quick": 280, "thorough": 3000}
 NSEQ = {"quick": 90, "thorough": 600}
 MAX_SHARDS = 16
@@ -415,6 +416,23 @@ def judge(case, rep, S):
             rep.cnt("objects_with_nine_phosphosites")
         elif sty and rng.random() < 0.4:
             pre = rng.sample(sty, min(len(sty), rng.randint(1, 4)))
+            r3 = gen.sub_rng(case["o"] ^ 0x1515 ^ len(objs), ID)         # own generator: the ordinary stream stays what it was
+            if len(sty) > len(pre) and r3.random() < 0.5:
+                # the object carried OTHER sites (as many) before, was asked the phospho-queries, and was cleared: the reference for
+                # (sequence, sites) knows nothing of that
+                other = r3.sample(sty, len(pre))
+                if sorted(other) == sorted(pre):
+                    other = [x for x in sty if x not in pre][:len(pre)] or other
+                try:
+                    o.set_phosphosites(list(other))
+                    o.get_kappa_after_phosphorylation()
+                    o.get_phosphosequence()
+                    if len(other) <= 3:
+                        o.get_full_phosphostatus_kappa_distribution()
+                    o.clear_phosphosites()
+                    rep.cnt("objects_that_carried_other_sites_before")
+                except Exception:
+                    o = SP(s)
             o.set_phosphosites(list(pre))
         objs.append(o)
         presets.append(pre)
